@@ -167,8 +167,8 @@ func monotoneMix(got []byte, refs [][]byte) (ok, mixed bool) {
 //	faulted    a render into a faulting writer / with a failing expression still obeys the
 //	           single-render contract: received is a prefix of D; nil => whole D;
 //	           failing expression => error wraps the sentinel
-//	pool       hook H2 live-set: no buffer handed out while live, none released twice,
-//	           gets == puts and nothing live at quiescence
+//	pool       hook H2 live-set: no buffer handed out while live, none released twice
+//	           (gets - puts at quiescence is evidence only: dropping a buffer is allowed)
 //	race       any "WARNING: DATA RACE" block in the GORACE log
 //	dev-mix    see monotoneMix
 //	handler    requests through templ.Handler / templ.ToGoHTML (the templ package's own
@@ -212,7 +212,8 @@ func judgeProc(c *core.Ctx, name string, dev bool, jobs []rcorpus.Job, run corpu
 		case "pool":
 			res.pools = append(res.pools, ev.Pool)
 			c.Eval(1)
-			if p := ev.Pool; len(p.Anomalies) > 0 || p.Live != 0 || p.Gets != p.Puts {
+			// a buffer that is never released (dropped instead of recycled) is no violation
+			if p := ev.Pool; len(p.Anomalies) > 0 {
 				bad("pool", "phase %s: buffer pool monitor: gets=%d puts=%d live=%d anomalies=%v", ev.Tag, p.Gets, p.Puts, p.Live, p.Anomalies)
 			}
 		case "concdone":
@@ -672,6 +673,7 @@ func Run(c *core.Ctx) {
 		for _, p := range r.pools {
 			hookPhases++
 			c.Add("pool_hook_gets", int(p.Gets))
+			c.Add("pool_hook_buffers_never_released_not_judged", int(p.Gets-p.Puts))
 			c.Add("pool_hook_recycled_gets", int(p.Recycled))
 			c.Add("pool_hook_gets_of_a_buffer_released_by_another_goroutine", int(p.Moved))
 			c.Add("pool_hook_distinct_buffers", p.Distinct)
